@@ -7,7 +7,7 @@ import (
 	"path/filepath"
 	"strconv"
 
-	_ "verif/internal/checks"
+	"verif/internal/checks"
 	"verif/internal/mc"
 )
 
@@ -43,6 +43,12 @@ func main() {
 			usage()
 		}
 		os.Exit(mc.ReplayFile(os.Args[2]))
+	case "racepass":
+		n := 200
+		if len(os.Args) > 2 {
+			n, _ = strconv.Atoi(os.Args[2])
+		}
+		os.Exit(checks.RacePass(n))
 	case "selfcheck":
 		os.Exit(mc.RunSelfchecks())
 	case "list":
